@@ -116,6 +116,23 @@ func app(sort string, op string, args ...Term) Term {
 			return boolLit(a > b)
 		}
 	}
+	if len(args) == 1 && args[0].Sort == sIface && strings.HasPrefix(args[0].S, "(i") {
+		// accessors and testers applied to a constructor term
+		if parts := sexprArgs(args[0].S); len(parts) == 3 {
+			switch op {
+			case "(_ is iptr)", "(_ is iint)", "(_ is if64)", "(_ is istr)", "(_ is ibool)", "(_ is iopq)":
+				return boolLit("(_ is "+parts[0]+")" == op)
+			case "itag":
+				if parts[0] == "iptr" {
+					return Term{parts[1], sInt}
+				}
+			case "iref":
+				if parts[0] == "iptr" {
+					return Term{parts[2], sInt}
+				}
+			}
+		}
+	}
 	var sb strings.Builder
 	sb.WriteString("(")
 	sb.WriteString(op)
@@ -398,4 +415,35 @@ func sortedKeys[V any](m map[string]V) []string {
 	}
 	sort.Strings(ks)
 	return ks
+}
+
+// sexprArgs splits "(f a b ...)" into [f a b ...] at the top level.
+func sexprArgs(s string) []string {
+	if len(s) < 2 || s[0] != '(' || s[len(s)-1] != ')' {
+		return nil
+	}
+	body := s[1 : len(s)-1]
+	var out []string
+	d, inq, start := 0, false, 0
+	for i := 0; i < len(body); i++ {
+		c := body[i]
+		switch {
+		case c == '|':
+			inq = !inq
+		case inq:
+		case c == '(':
+			d++
+		case c == ')':
+			d--
+		case c == ' ' && d == 0:
+			if i > start {
+				out = append(out, body[start:i])
+			}
+			start = i + 1
+		}
+	}
+	if start < len(body) {
+		out = append(out, body[start:])
+	}
+	return out
 }
